@@ -270,6 +270,17 @@ def guarded_params(fn: ast.FunctionDef):
     return out
 
 
+def iterable_params(fn: ast.FunctionDef):
+    """parameters annotated as (possibly one-shot) iterables: the dynamic oracle also passes iterators/generators for them"""
+    out = []
+    for a in fn.args.args[1:] + fn.args.kwonlyargs:
+        if a.annotation is not None:
+            t = ast.unparse(a.annotation)
+            if "Iterable" in t or "Iterator" in t:
+                out.append(a.arg)
+    return out
+
+
 def as_observable_ok(cls: ast.ClassDef) -> bool:
     for f in cls.body:
         if isinstance(f, ast.FunctionDef) and f.name == "_as_observable":
@@ -297,7 +308,7 @@ def extract(repo: Path):
                 if not isinstance(f, ast.FunctionDef) or f.name.startswith("_") or is_overload(f):
                     continue
                 row = {"name": f.name, "cls": cls.name, "file": fn.name, "params": params_of(f, drop_self=True),
-                       "recv_self": True, "branches": [], "guarded": guarded_params(f)}
+                       "recv_self": True, "branches": [], "guarded": guarded_params(f), "iterables": iterable_params(f)}
                 br = BodyReader(f, aok)
                 try:
                     if any(p.get("unsupported") for p in row["params"]):
